@@ -48,7 +48,68 @@ fn polygon(a: &mut Args) -> s2::ConvexPolygon {
     poly
 }
 
+fn fid3(p: s3::PackedFeatureId) -> String {
+    match p.unpack() { s3::FeatureId::Vertex(c) => format!("v{}", c), s3::FeatureId::Edge(c) => format!("e{}", c),
+                       s3::FeatureId::Face(c) => format!("f{}", c), _ => "u".into() }
+}
+fn fid2(p: s2::PackedFeatureId) -> String {
+    match p.unpack() { s2::FeatureId::Vertex(c) => format!("v{}", c), s2::FeatureId::Face(c) => format!("f{}", c), _ => "u".into() }
+}
+/// `n  v_0 … v_{n-1}  vid_0 … vid_{n-1}  eid_0 … eid_{n-1}  fid`
+fn ffeat3(f: &s3::PolygonalFeature) -> String {
+    let n = f.num_vertices;
+    let mut t = vec![format!("{}", n)];
+    for i in 0..n { t.push(d3::fp(&f.vertices[i])); }
+    for i in 0..n { t.push(fid3(f.vids[i])); }
+    for i in 0..n { t.push(fid3(f.eids[i])); }
+    t.push(fid3(f.fid));
+    t.join(" ")
+}
+fn ffeat2(f: &s2::PolygonalFeature) -> String {
+    let n = f.num_vertices;
+    let mut t = vec![format!("{}", n)];
+    for i in 0..n { t.push(d2::fp(&f.vertices[i])); }
+    for i in 0..n { t.push(fid2(f.vids[i])); }
+    t.push(fid2(f.fid));
+    t.join(" ")
+}
+fn feat3<S: s3::PolygonalFeatureMap>(s: &S, a: &mut Args) -> String {
+    let d = d3::v(a);
+    let mut f = s3::PolygonalFeature::default();
+    s.local_support_feature(&Unit::new_unchecked(d), &mut f);
+    ffeat3(&f)
+}
+fn feat2<S: s2::PolygonalFeatureMap>(s: &S, a: &mut Args) -> String {
+    let d = d2::v(a);
+    let mut f = s2::PolygonalFeature::default();
+    s.local_support_feature(&crate::p2::na::Unit::new_unchecked(d), &mut f);
+    ffeat2(&f)
+}
+
+fn exec_feature(func: &str, a: &mut Args) -> Option<String> {
+    Some(match func {
+        // ---- feature maps
+        "cuboid_face" => { let he = d3::v(a); let d = d3::v(a); ffeat3(&s3::Cuboid::new(he).support_face(d)) }
+        "cuboid_feature" => { let he = d3::v(a); feat3(&s3::Cuboid::new(he), a) }
+        "cuboid_edge" => { let he = d3::v(a); let d = d3::v(a); let s = s3::Cuboid::new(he).local_support_edge_segment(d);
+            format!("{} {}", d3::fp(&s.a), d3::fp(&s.b)) }
+        "cuboid2_face" => { let he = d2::v(a); let d = d2::v(a); ffeat2(&s2::Cuboid::new(he).support_face(d)) }
+        "cuboid2_feature" => { let he = d2::v(a); feat2(&s2::Cuboid::new(he), a) }
+        "triangle_feature" => { let p = d3::p(a); let q = d3::p(a); let r = d3::p(a); feat3(&s3::Triangle::new(p, q, r), a) }
+        "triangle_edge" => { let p = d3::p(a); let q = d3::p(a); let r = d3::p(a); let d = d3::v(a);
+            let s = s3::Triangle::new(p, q, r).local_support_edge_segment(d); format!("{} {}", d3::fp(&s.a), d3::fp(&s.b)) }
+        "triangle2_feature" => { let p = d2::p(a); let q = d2::p(a); let r = d2::p(a); feat2(&s2::Triangle::new(p, q, r), a) }
+        "segment_feature" => { let p = d3::p(a); let q = d3::p(a); feat3(&s3::Segment::new(p, q), a) }
+        "segment2_feature" => { let p = d2::p(a); let q = d2::p(a); feat2(&s2::Segment::new(p, q), a) }
+        "cylinder_feature" => { let hh = a.f(); let r = a.f(); feat3(&s3::Cylinder::new(hh, r), a) }
+        "cone_feature" => { let hh = a.f(); let r = a.f(); feat3(&s3::Cone::new(hh, r), a) }
+        "polygon_feature" => { let s = polygon(a); feat2(&s, a) }
+        _ => return None,
+    })
+}
+
 pub fn exec(func: &str, a: &mut Args) -> String {
+    if let Some(s) = exec_feature(func, a) { return s; }
     let (shape, mode) = match func.rfind('_') { Some(i) => (&func[..i], &func[i + 1..]), None => (func, "") };
     match shape {
         // ---- 3-D
@@ -281,6 +342,36 @@ pub fn gen(r: &mut Rng, thorough: bool) -> Vec<(String, String)> {
         all2(r, &mut v, "polygon", hpts2(&pg));
         all2(r, &mut v, "roundcuboid2", format!("{} {}", d2::hv(&he2), hx(br)));
         all2(r, &mut v, "roundpolygon", format!("{} {}", hpts2(&pg), hx(br)));
+        // ---- feature maps (directions are unit for the trait method; `support_face` takes any vector)
+        for k in 0..2 {
+            let d = if k == 0 { gen_dir3(r, lat) } else { gen_unit3(r, lat) };
+            let dd = if k == 0 { gen_dir2(r, lat) } else { gen_unit2(r, lat) };
+            v.push(("cuboid_face".into(), format!("{} {}", d3::hv(&he), d3::hv(&d))));
+            v.push(("cuboid_edge".into(), format!("{} {}", d3::hv(&he), d3::hv(&d))));
+            v.push(("cuboid2_face".into(), format!("{} {}", d2::hv(&he2), d2::hv(&dd))));
+            v.push(("triangle_edge".into(), format!("{} {} {} {}", d3::hp(&a), d3::hp(&b), d3::hp(&c), d3::hv(&d))));
+        }
+        let u = gen_unit3(r, lat); let u2 = gen_unit2(r, lat);
+        v.push(("cuboid_feature".into(), format!("{} {}", d3::hv(&he), d3::hv(&u))));
+        v.push(("cuboid2_feature".into(), format!("{} {}", d2::hv(&he2), d2::hv(&u2))));
+        v.push(("triangle_feature".into(), format!("{} {} {} {}", d3::hp(&a), d3::hp(&b), d3::hp(&c), d3::hv(&u))));
+        v.push(("segment_feature".into(), format!("{} {} {}", d3::hp(&a), d3::hp(&b), d3::hv(&u))));
+        v.push(("segment2_feature".into(), format!("{} {} {}", d2::hp(&a2), d2::hp(&b2), d2::hv(&u2))));
+        // counter-clockwise (and, rarely, clockwise / degenerate) 2-D triangles
+        let (ta, tb, tc) = { let area = (b2 - a2).perp(&(c2 - a2)); if area < 0.0 && r.below(8) != 0 { (a2, c2, b2) } else { (a2, b2, c2) } };
+        for _ in 0..2 {
+            v.push(("triangle2_feature".into(), format!("{} {} {} {}", d2::hp(&ta), d2::hp(&tb), d2::hp(&tc), d2::hv(&gen_unit2(r, lat)))));
+        }
+        for _ in 0..2 {
+            let u = if r.below(4) == 0 { // around the |dir.y| = 0.5 switch of the cylinder and dir.y = 0 of the cone
+                let y = *r.pick(&[0.5, -0.5, 0.0, -0.0, 0.4999999999999999, 0.5000000000000001]);
+                let s = (1.0 - y * y as f64).sqrt(); let (cx, cz) = *r.pick(&[(1.0, 0.0), (0.0, 1.0), (0.6, 0.8), (-0.8, 0.6)]);
+                d3::Vector::new(cx * s, y, cz * s)
+            } else { gen_unit3(r, lat) };
+            v.push(("cylinder_feature".into(), format!("{} {} {}", hx(r2), hx(r3), d3::hv(&u))));
+            v.push(("cone_feature".into(), format!("{} {} {}", hx(r2), hx(r3), d3::hv(&u))));
+            v.push(("polygon_feature".into(), format!("{} {}", hpts2(&pg), d2::hv(&gen_unit2(r, lat)))));
+        }
     }
     v
 }
